@@ -84,7 +84,39 @@ func c04(c *Ctx) {
 	}
 }
 
-func c04run(c *Ctx, fl *featLab, p *pool, tz string) {
+// c04cross is the L2 half of C14: client-only vs server-only package behaviour.
+func c04cross(c *Ctx) {
+	feats := corpus.Features()
+	fl, err := buildFeatureLab(c, "c14", feats, []variant{{Tag: "h", Plugins: []string{"go-http"}}, {Tag: "c", Plugins: []string{"go-client"}}}, false, nil, false)
+	if err != nil {
+		c.R.Harness(err.Error())
+		return
+	}
+	p, err := startPool(fl.Bin, 8, "")
+	if err != nil {
+		c.R.Harness("cannot start lab: " + err.Error())
+		return
+	}
+	c04runMode(c, fl, p, "UTC", true)
+	p.Close()
+	for _, pn := range p.Panics {
+		c.R.Harness("driver panic in work item: " + firstLines(pn, 12))
+	}
+}
+
+func c04run(c *Ctx, fl *featLab, p *pool, tz string) { c04runMode(c, fl, p, tz, false) }
+
+type violFn func(caseID, symptom, detail string, replay any)
+
+func c04runMode(c *Ctx, fl *featLab, p *pool, tz string, crossOnly bool) {
+	viol := violFn(c.R.Violate)
+	if crossOnly {
+		viol = func(caseID, symptom, detail string, replay any) {
+			if symptom == "plugins-differ" {
+				c.R.Violate(caseID, symptom, detail, replay)
+			}
+		}
+	}
 	ids := sortedFeatIDs(fl.Units)
 	enc := &jsonmap.Encoder{}
 	p.Each(len(ids), func(ch *lab.Child, i int) {
@@ -97,12 +129,15 @@ func c04run(c *Ctx, fl *featLab, p *pool, tz string) {
 		}
 		for _, u := range us {
 			if u.Refused != "" {
-				c.R.Violate(base, "refused", u.V.Tag+": "+u.Refused, map[string]any{"proto": u.FP.File.Proto(), "plugins": u.V.Plugins})
+				viol(base, "refused", u.V.Tag+": "+u.Refused, map[string]any{"proto": u.FP.File.Proto(), "plugins": u.V.Plugins})
 			} else if d := emittedDiag(u.Diags); d != nil {
-				c.R.Violate(base, "compile", u.V.Tag+": "+d.Msg, map[string]any{"proto": u.FP.File.Proto(), "plugins": u.V.Plugins, "file": d.File, "line": d.Line, "msg": d.Msg})
+				viol(base, "compile", u.V.Tag+": "+d.Msg, map[string]any{"proto": u.FP.File.Proto(), "plugins": u.V.Plugins, "file": d.File, "line": d.Line, "msg": d.Msg})
 			}
 		}
 		if !h.OK() || !cl.OK() {
+			if crossOnly && h.OK() != cl.OK() && !strings.HasPrefix(h.FP.Feat.Ann, "unwrap") {
+				c.R.Violate(base, "plugins-differ", "only one of the two packages builds", map[string]any{"proto": h.FP.File.Proto()})
+			}
 			return
 		}
 		md := h.Msg(h.FP.Root)
@@ -151,15 +186,15 @@ func c04run(c *Ctx, fl *featLab, p *pool, tz string) {
 				c.R.Count("custom_marshalers_exercised", 1)
 			}
 			if pan != "" {
-				c.R.Violate(caseID, "panic", "marshal: "+pan, rp(map[string]any{"stack": pan}))
+				viol(caseID, "panic", "marshal: "+pan, rp(map[string]any{"stack": pan}))
 				continue
 			}
 			if eerr != "" {
-				c.R.Violate(caseID, "encode-error", eerr, rp(map[string]any{"error": eerr}))
+				viol(caseID, "encode-error", eerr, rp(map[string]any{"error": eerr}))
 				continue
 			}
 			if _, perr := jsonmap.Parse(jh); perr != nil {
-				c.R.Violate(caseID, "encode-invalid-json", perr.Error(), rp(map[string]any{"json": string(jh)}))
+				viol(caseID, "encode-invalid-json", perr.Error(), rp(map[string]any{"json": string(jh)}))
 				continue
 			}
 			// 2. decode own output
@@ -171,15 +206,15 @@ func c04run(c *Ctx, fl *featLab, p *pool, tz string) {
 			}
 			switch {
 			case pan != "":
-				c.R.Violate(caseID, "panic", "unmarshal own output: "+pan, rp(map[string]any{"json": string(jh), "stack": pan}))
+				viol(caseID, "panic", "unmarshal own output: "+pan, rp(map[string]any{"json": string(jh), "stack": pan}))
 			case derr != "":
-				c.R.Violate(caseID, "decode-own-output", derr, rp(map[string]any{"json": string(jh), "error": derr}))
+				viol(caseID, "decode-own-output", derr, rp(map[string]any{"json": string(jh), "error": derr}))
 			default:
 				got := dynamicpb.NewMessage(md)
 				if uerr := proto.Unmarshal(back, got); uerr != nil {
 					c.R.Harness("cannot re-read decoded wire: " + uerr.Error())
 				} else if !proto.Equal(got, norm) {
-					c.R.Violate(caseID, "roundtrip-changed", diffFields(norm, got), rp(map[string]any{"json": string(jh), "decoded": fmt.Sprint(got), "expected": fmt.Sprint(norm)}))
+					viol(caseID, "roundtrip-changed", diffFields(norm, got), rp(map[string]any{"json": string(jh), "decoded": fmt.Sprint(got), "expected": fmt.Sprint(norm)}))
 				}
 			}
 			// 3. same value through the go-client-only package (go-client does not implement
@@ -201,12 +236,12 @@ func c04run(c *Ctx, fl *featLab, p *pool, tz string) {
 				return
 			}
 			if pan != "" || eerr2 != "" {
-				c.R.Violate(caseID, "plugins-differ", "go-client package fails to encode: "+eerr2+pan, rp(map[string]any{"http_json": string(jh)}))
+				viol(caseID, "plugins-differ", "go-client package fails to encode: "+eerr2+pan, rp(map[string]any{"http_json": string(jh)}))
 			} else {
 				th, _ := jsonmap.Parse(jh)
 				tc, perr := jsonmap.Parse(jc)
 				if perr != nil || len(jsonmap.Diff(th, tc)) > 0 {
-					c.R.Violate(caseID, "plugins-differ", "encode trees differ", rp(map[string]any{"http_json": string(jh), "client_json": string(jc)}))
+					viol(caseID, "plugins-differ", "encode trees differ", rp(map[string]any{"http_json": string(jh), "client_json": string(jc)}))
 				}
 				backc, derrc, _, panc, err := codec(ch, cl.FP.Root, "unmarshal", jh)
 				c.R.Eval(1)
@@ -215,9 +250,9 @@ func c04run(c *Ctx, fl *featLab, p *pool, tz string) {
 					return
 				}
 				if (derrc != "") != (derr != "") || (panc != "") != false && pan == "" {
-					c.R.Violate(caseID, "plugins-differ", "decode outcome differs", rp(map[string]any{"json": string(jh), "http_err": derr, "client_err": derrc + panc}))
+					viol(caseID, "plugins-differ", "decode outcome differs", rp(map[string]any{"json": string(jh), "http_err": derr, "client_err": derrc + panc}))
 				} else if derrc == "" && derr == "" && string(backc) != string(back) {
-					c.R.Violate(caseID, "plugins-differ", "decoded messages differ", rp(map[string]any{"json": string(jh)}))
+					viol(caseID, "plugins-differ", "decoded messages differ", rp(map[string]any{"json": string(jh)}))
 				}
 			}
 			}
@@ -245,14 +280,14 @@ func c04run(c *Ctx, fl *featLab, p *pool, tz string) {
 				}
 				switch {
 				case pank != "":
-					c.R.Violate(caseID, "panic", "unmarshal canonical form"+sfx+": "+pank, rp(map[string]any{"canonical_json": string(canon), "stack": pank}))
+					viol(caseID, "panic", "unmarshal canonical form"+sfx+": "+pank, rp(map[string]any{"canonical_json": string(canon), "stack": pank}))
 				case derrk != "":
-					c.R.Violate(caseID, "canon-decode-error", sfx+derrk, rp(map[string]any{"canonical_json": string(canon), "error": derrk}))
+					viol(caseID, "canon-decode-error", sfx+derrk, rp(map[string]any{"canonical_json": string(canon), "error": derrk}))
 				default:
 					got := dynamicpb.NewMessage(md)
 					_ = proto.Unmarshal(backk, got)
 					if !proto.Equal(got, norm) {
-						c.R.Violate(caseID, "canon-changed", sfx+diffFields(norm, got), rp(map[string]any{"canonical_json": string(canon), "decoded": fmt.Sprint(got), "expected": fmt.Sprint(norm)}))
+						viol(caseID, "canon-changed", sfx+diffFields(norm, got), rp(map[string]any{"canonical_json": string(canon), "decoded": fmt.Sprint(got), "expected": fmt.Sprint(norm)}))
 					}
 				}
 			}
